@@ -30,6 +30,8 @@ AnyPaths(T, v, pre) ==
     [] T[1] = "tuple" -> UNION { AnyPaths(T[2][i], v[2][i], Append(pre, i)) : i \in DOMAIN T[2] }
     [] T[1] \in {"dict", "odict", "ddict", "mapping", "mmapping"} -> UNION { AnyPaths(T[3], v[2][i][2], Append(pre, i)) : i \in DOMAIN v[2] }
     [] T[1] = "opt" -> IF IsNone(v) THEN {} ELSE AnyPaths(T[2], v, pre)
+    [] T[1] = "union" -> LET hits == { i \in DOMAIN T[2] : MatchesTag(T[2][i], v) } IN
+                         IF hits = {} THEN {} ELSE AnyPaths(T[2][CHOOSE i \in hits : \A k \in hits : i <= k], v, pre)
     [] OTHER -> {}
 
 RECURSIVE SharedPaths(_, _, _, _)
@@ -42,5 +44,7 @@ SharedPaths(T, cx, v, pre) ==
     [] T[1] = "tuple" -> UNION { SharedPaths(T[2][i], ElemCx(cx), v[2][i], Append(pre, i)) : i \in DOMAIN T[2] }
     [] T[1] \in {"dict", "odict", "ddict", "mapping", "mmapping"} -> UNION { SharedPaths(T[3], ElemCx(cx), v[2][i][2], Append(pre, i)) : i \in DOMAIN v[2] }
     [] T[1] = "opt" -> IF IsNone(v) THEN {} ELSE SharedPaths(T[2], cx, v, pre)
+    [] T[1] = "union" -> LET hits == { i \in DOMAIN T[2] : MatchesTag(T[2][i], v) } IN
+                         IF hits = {} THEN {} ELSE SharedPaths(T[2][CHOOSE i \in hits : \A k \in hits : i <= k], cx, v, pre)
     [] OTHER -> {}
 =============================================================================
